@@ -53,20 +53,20 @@ Definition set_seg_count (x : xstate) (v : Z) : xstate :=
      isa_ids := isa_ids x; gs_ids := gs_ids x; st_ids := st_ids x;
      lx_count := lx_count x; check_837_lx := check_837_lx x |}.
 
-(* _close_loop: the trailer written and the counter reset *)
-Definition close_loop (w : wstate) (kind : str) (loop_id : option str) : wstate * list str :=
+(* _close_loop: the trailer written (as a segment; `emit` turns it into text) and the counter reset *)
+Definition close_loop (w : wstate) (kind : str) (loop_id : option str) : wstate * list seg :=
   let x := wx w in
   if str_eqb kind (l "ISA") then
-    (with_x w (set_gs_count x 0), [emit w (trailer w "IEA" (gs_count x) loop_id)])
+    (with_x w (set_gs_count x 0), [trailer w "IEA" (gs_count x) loop_id])
   else if str_eqb kind (l "GS") then
-    (with_x w (set_st_count x 0), [emit w (trailer w "GE" (st_count x) loop_id)])
+    (with_x w (set_st_count x 0), [trailer w "GE" (st_count x) loop_id])
   else if str_eqb kind (l "ST") then
-    (with_x w (set_seg_count x 0), [emit w (trailer w "SE" (seg_count x + 1)%Z loop_id)])
+    (with_x w (set_seg_count x 0), [trailer w "SE" (seg_count x + 1)%Z loop_id])
   else (w, []).
 
 (* _popToLoop: close loops from the innermost up to and including the first of `kind`
    (all of them when none is of that kind) *)
-Fixpoint pop_to_loop (w : wstate) (lp : list (str * option str)) (kind : str) : wstate * list str :=
+Fixpoint pop_to_loop (w : wstate) (lp : list (str * option str)) (kind : str) : wstate * list seg :=
   match lp with
   | [] => (with_x w (with_loops (wx w) []), [])
   | (k, id) :: rest =>
@@ -76,15 +76,15 @@ Fixpoint pop_to_loop (w : wstate) (lp : list (str * option str)) (kind : str) : 
       else let (w3, out') := pop_to_loop w2 rest kind in (w3, out ++ out')
   end.
 
-Definition pop_to (w : wstate) (kind : string) : wstate * list str :=
+Definition pop_to (w : wstate) (kind : string) : wstate * list seg :=
   pop_to_loop w (loops (wx w)) (l kind).
 
 (* X12Writer.Close *)
-Definition w_close (w : wstate) : wstate * list str := pop_to w "ISA".
+Definition w_close_segs (w : wstate) : wstate * list seg := pop_to w "ISA".
 
-(* X12Writer.Write.  `ds` are the delimiters the segment object was built with
+(* X12Writer.Write: the segments written.  `ds` are the delimiters the segment object was built with
    (Segment.set splits a new value at the segment's own sub-element separator). *)
-Definition w_write (w : wstate) (ds : delims) (s : seg) : result (wstate * list str) :=
+Definition w_write_segs (w : wstate) (ds : delims) (s : seg) : result (wstate * list seg) :=
   do r <- base_step ds (wx w) s;
   let w1 := with_x w (fst r) in
   if sid_is s "IEA" then Ok (pop_to w1 "ISA")
@@ -92,20 +92,32 @@ Definition w_write (w : wstate) (ds : delims) (s : seg) : result (wstate * list 
   else if sid_is s "SE" then Ok (pop_to w1 "ST")
   else if check_837_lx (wx w1) && sid_is s "LX" then
     do s' <- set_ix ds s (Some 0%Z, None) (fmt_Z (lx_count (wx w1)));
-    Ok (w1, [emit w1 s'])
+    Ok (w1, [s'])
   else if sid_is s "ISA" then
     do s1 <- (if opt_eqb str_eqb (ev ds s 12) (Some (l "00501"))
               then set_ix ds s (Some 10%Z, None) (w_rep w) else Ok s);
     do s2 <- set_ix ds s1 (Some 15%Z, None) [subele_term (wd w)];
-    Ok (w1, [emit w1 s2])
-  else Ok (w1, [emit w1 s]).
+    Ok (w1, [s2])
+  else Ok (w1, [s]).
 
-(* a whole write history followed by Close; output = concatenation of everything written *)
-Fixpoint w_run (w : wstate) (ds : delims) (segs : list seg) : result (wstate * list str) :=
+(* the text actually written *)
+Definition w_close (w : wstate) : wstate * list str :=
+  let (w', segs) := w_close_segs w in (w', map (emit w) segs).
+
+Definition w_write (w : wstate) (ds : delims) (s : seg) : result (wstate * list str) :=
+  do r <- w_write_segs w ds s; Ok (fst r, map (emit w) (snd r)).
+
+(* a whole write history: all segments written, in order *)
+Fixpoint w_run_segs (w : wstate) (ds : delims) (segs : list seg) : result (wstate * list seg) :=
   match segs with
   | [] => Ok (w, [])
   | s :: rest =>
-      do r <- w_write w ds s;
-      do r2 <- w_run (fst r) ds rest;
+      do r <- w_write_segs w ds s;
+      do r2 <- w_run_segs (fst r) ds rest;
       Ok (fst r2, snd r ++ snd r2)
   end.
+
+(* history followed by Close *)
+Definition w_run_close (w : wstate) (ds : delims) (segs : list seg) : result (list seg) :=
+  do r <- w_run_segs w ds segs;
+  Ok (snd r ++ snd (w_close_segs (fst r))).
